@@ -16,7 +16,6 @@ WHY_MISSED = {
  "C26-3": "dictionary null normalisation (Arrow arrays): C26 is claimed for the byte-pack codec only",
  "C28-1": "FSST symbol-table construction (raw pointers, randomised trainer): the FSST half of C28 is listed as undecided",
  "C28-2": "FSST `compress_bulk` (raw pointers, 32 KiB inputs): the FSST half of C28 is listed as undecided",
- "C30-1": "coalescing in `FileScheduler::submit_request`: measured infeasible in the design phase (section 4, C30)",
  "C05-1": "`Manifest::max_field_id`: nested `flat_map` over fragments / data files / field ids; Kani attempt with array-backed shims ran out of memory at 28 GB for 2 x 2 x 2 (9.7)",
  "C05-2": "`Transaction::assign_row_ids`: CBMC out of memory in the design phase (section 4, C07/C18); C05 is claimed for the fragment-id high-water mark only",
  "C05-3": "`merge_fragments_valid` (lance/src/dataset/transaction.rs, iterator chains over `Fragment`s): not under contract; C05 is claimed for the fragment-id high-water mark only",
@@ -66,8 +65,8 @@ out.append("**%d of %d valid seeded changes are caught** (exit 1 with the named 
            "is how defect F5 was found), `index_coverage` (after C19-r2-3), `take_addrs` (after C15-r2-3), the `on_bytes_consumed`\n"
            "slice with the loop-free fallback (after C30-2), the richer `flags_apply` shim (after C37-2 first came out as exit 2\n"
            "because the shim lacked `num_deleted_rows`), the dirty output buffer and `u32_w0` in the quick tier of `bitpack` (after\n"
-           "C28-3), the new `chunk_split` unit (after C30-3: the splitting loop of `LanceEncodingsIo::submit_request` under a tiling\n"
-           "contract), `rowids_real` (counterexamples for `encoded_array`, after C34-1 had none).  Attempts that failed: `decompose_sequence`\n"
+           "C28-3), the new `chunk_split` and `sched_ranges` units (after C30-3 / C30-1: the splitting loop of\n"
+           "`LanceEncodingsIo::submit_request` and the coalescing / splitting loop bodies of `FileScheduler::submit_request`), `rowids_real` (counterexamples for `encoded_array`, after C34-1 had none).  Attempts that failed: `decompose_sequence`\n"
            "(C34-3 / C15-r2-2) and `max_field_id` (C05-1), see 9.7.  `C19-coerce-*` are my own breaking edits from round 1, not\n"
            "independent seeds; `C21-4` breaks an existing test and is not counted.\n" % (n_caught, n_valid))
 out.append("| seed | property | change | confirmed | result of `./check <property>` with the change applied |")
